@@ -1,4 +1,5 @@
 import GomlVerif.Driver.C05
+import GomlVerif.Driver.C06
 import GomlVerif.Driver.C10
 import GomlVerif.Driver.C12
 import GomlVerif.Driver.C15
@@ -9,10 +10,12 @@ import GomlVerif.Driver.C19
 import GomlVerif.Driver.C13
 import GomlVerif.Driver.C16
 import GomlVerif.Driver.Dce
+import GomlVerif.Driver.C09
 
 def main (args : List String) : IO UInt32 := do
   match args with
   | ["c05"] => Goml.Driver.C05.main; return 0
+  | ["c06"] => Goml.Driver.C06.main; return 0
   | ["c10"] => Goml.Driver.C10.main; return 0
   | ["c12"] => Goml.Driver.C12.main; return 0
   | ["c15"] => Goml.Driver.C15.main; return 0
@@ -24,4 +27,5 @@ def main (args : List String) : IO UInt32 := do
   | ["c13"] => Goml.Driver.C13.main; return 0
   | ["c16"] => Goml.Driver.C16.main; return 0
   | ["dce"] => Goml.Driver.Dce.main; return 0
+  | ["c09"] => Goml.Driver.C09.main; return 0
   | _ => IO.eprintln "usage: gomlmodel <c05|…> < lines"; return 2
